@@ -92,8 +92,8 @@ def case_wiring(log, pid, order, mode, thr, its=1, running=False):
             s_a = [x for x in calls if x[0] == "a"]
             if len(s_as) != its + 1 or len(s_a) != its:
                 raise EngineError("compute_aem_list: %d a_s calls, %d a calls for %d iterations" % (len(s_as), len(s_a), its))
-            Z(s_as[0][1] - q0, "first a_s node at q2_from")
-            Z(s_as[-1][1] - q1, "last a_s node at q2_to")
+            Z(s_as[0][1] - want0, "first a_s node at the scale of the initial coupling (shifted renormalization scale)")
+            Z(s_as[-1][1] - want1, "last a_s node at the scale of the final coupling (shifted renormalization scale)")
             for k in range(1, its):
                 Z(s_as[k][1] * s_as[k][1] - s_as[k - 1][1] * s_as[k + 1][1], "a_s nodes geometric: node_%d^2 == node_%d node_%d" % (k, k - 1, k + 1))
             for k in range(its):
@@ -237,6 +237,9 @@ def add_cases(chk, pid, thorough, qcd=True):
     for its in ((1, 2, 3) if thorough else (2, 3)):
         for running in (True, False):
             chk.case("wiring.qed.its%d.run%d" % (its, running), case_wiring, pid=pid, order=(2, 1), mode="unvaried", thr=False, its=its, running=running)
+    for mode in ("exponentiated", "expanded") if qcd else ():
+        for thr in (False, True):
+            chk.case("wiring.qed.%s.thr%d" % (mode, thr), case_wiring, pid=pid, order=(3, 1), mode=mode, thr=thr, its=2, running=False)
 
 
 def _sampler(rng):
@@ -292,7 +295,7 @@ def replay_wiring(point, order, mode, thr, its, running):
     if order[1] > 0:
         s_as = [x[1] for x in c if x[0] == "a_s"]
         s_a = [x[1] for x in c if x[0] == "a"]
-        nodes = np.geomspace(q0, q1, its + 1)
+        nodes = np.geomspace(want0, want1, its + 1)
         if len(s_as) != its + 1 or not np.allclose(s_as, nodes, rtol=1e-10):
             bad.append("a_s nodes %r, expected geometric %r" % (s_as, nodes.tolist()))
         mids = [(nodes[k] + nodes[k + 1]) / 2 for k in range(its)]
